@@ -242,7 +242,7 @@ fn entity_event_contract<const S: usize, const W: usize, const HAS_ER: bool>() {
 
 /// insertion / mutation of component Val on `entity`: S scoped listeners of (kind, Val) (+ one scoped entry of the OTHER kind),
 /// W type-wide listeners of that kind (+ one in each of the two other lists of the same component).
-fn entity_reaction_contract<const MUTATION: bool, const S: usize, const W: usize, const HAS_ER: bool>() {
+fn entity_reaction_contract<const MUTATION: bool, const S: usize, const W: usize, const HAS_ER: bool, const HAS_COMP: bool>() {
     let mut world = World::new();
     let mut queue = CommandQueue::default();
     let mut cache = ReactCache::default();
@@ -266,9 +266,12 @@ fn entity_reaction_contract<const MUTATION: bool, const S: usize, const W: usize
         let commands = Commands::verif_new(&mut queue, &world);
         let q = Query::verif_single(entity, if HAS_ER { Some(&mut er) } else { None });
         if MUTATION { ReactCache::schedule_mutation_reaction::<Val>(In(entity), ResMut::verif_new(&mut cache), commands, q); }
-        else { ReactCache::schedule_insertion_reaction::<Val>(In(entity), ResMut::verif_new(&mut cache), commands, q); }
+        else { ReactCache::schedule_insertion_reaction::<Val>(In(entity), ResMut::verif_new(&mut cache), commands, q, Query::verif_single_filter(entity, HAS_COMP)); }
     }
-    let n = S + W;
+    // C14: an insertion is reacted to iff the component was actually inserted (the entity may have been despawned before the
+    // insert command was applied: then it does not carry React<C> and NOTHING may be queued)
+    let n = if HAS_COMP { S + W } else { 0 };
+    if !HAS_COMP { assert!(queue.verif_pending() == 0, "schedule_insertion_reaction: nothing is queued for an entity that does not carry the component (not inserted / despawned before apply)"); }
     assert!(queue.verif_pending() == n, "schedule_insertion/mutation_reaction: exactly one command per matching registration (entity-scoped of this kind + type-wide of this kind), nothing else");
     let mut k = 0;
     while k < n {
@@ -286,12 +289,14 @@ fn entity_reaction_contract<const MUTATION: bool, const S: usize, const W: usize
     core::mem::forget(er); core::mem::forget(queue); core::mem::forget(cache); core::mem::forget(world);
 }
 //# id=K.dispatch.mutation.s0w1_er props=C01,C14 strength=bounded shape="entity with EntityReactors holding only another kind, 1 type-wide mutation listener" tier=quick fns=ReactCache::schedule_mutation_reaction,schedule_entity_reaction_impl
-#[kani::proof] #[kani::unwind(8)] fn k_dispatch_mutation_s0w1_er() { entity_reaction_contract::<true, 0, 1, true>(); }
+#[kani::proof] #[kani::unwind(8)] fn k_dispatch_mutation_s0w1_er() { entity_reaction_contract::<true, 0, 1, true, true>(); }
 //# id=K.dispatch.mutation.s1w1 props=C01,C14 strength=bounded shape="1 scoped + 1 type-wide mutation listener" tier=quick fns=ReactCache::schedule_mutation_reaction,schedule_entity_reaction_impl
-#[kani::proof] #[kani::unwind(8)] fn k_dispatch_mutation_s1w1() { entity_reaction_contract::<true, 1, 1, true>(); }
+#[kani::proof] #[kani::unwind(8)] fn k_dispatch_mutation_s1w1() { entity_reaction_contract::<true, 1, 1, true, true>(); }
 //# id=K.dispatch.mutation.s0w0 props=C01,C14 strength=complete shape="entity without EntityReactors, no type-wide mutation listener (other lists non-empty)" tier=quick fns=ReactCache::schedule_mutation_reaction
-#[kani::proof] #[kani::unwind(8)] fn k_dispatch_mutation_s0w0() { entity_reaction_contract::<true, 0, 0, false>(); }
+#[kani::proof] #[kani::unwind(8)] fn k_dispatch_mutation_s0w0() { entity_reaction_contract::<true, 0, 0, false, true>(); }
 //# id=K.dispatch.insertion.s0w1_er props=C01,C14 strength=bounded shape="entity with EntityReactors holding only another kind, 1 type-wide insertion listener" tier=quick fns=ReactCache::schedule_insertion_reaction,schedule_entity_reaction_impl
-#[kani::proof] #[kani::unwind(8)] fn k_dispatch_insertion_s0w1_er() { entity_reaction_contract::<false, 0, 1, true>(); }
+#[kani::proof] #[kani::unwind(8)] fn k_dispatch_insertion_s0w1_er() { entity_reaction_contract::<false, 0, 1, true, true>(); }
 //# id=K.dispatch.insertion.s1w1 props=C01,C14 strength=bounded shape="1 scoped + 1 type-wide insertion listener" tier=quick fns=ReactCache::schedule_insertion_reaction,schedule_entity_reaction_impl
-#[kani::proof] #[kani::unwind(8)] fn k_dispatch_insertion_s1w1() { entity_reaction_contract::<false, 1, 1, true>(); }
+#[kani::proof] #[kani::unwind(8)] fn k_dispatch_insertion_s1w1() { entity_reaction_contract::<false, 1, 1, true, true>(); }
+//# id=K.dispatch.insertion.nocomp props=C14,C18 strength=bounded shape="entity does NOT carry React<C> (despawned before the insert was applied); 1 scoped + 1 type-wide insertion listener registered" tier=quick fns=ReactCache::schedule_insertion_reaction
+#[kani::proof] #[kani::unwind(8)] fn k_dispatch_insertion_nocomp() { entity_reaction_contract::<false, 1, 1, true, false>(); }
